@@ -36,7 +36,8 @@ var offsetPool = []time.Duration{0, 3 * time.Second, 90 * time.Second}
 var backPool = []int{0, 0, 1, 2, 5, 12} // LastScheduled = now - back periods: at now / before / far before
 
 type op struct {
-	K       string `json:"k"` // sched | release | advance | close | open
+	K       string `json:"k"`             // sched | release | advance | close | open
+	Mid     bool   `json:"mid,omitempty"` // sched / release: the clock advances by D / Periods while the call is in flight
 	ID      int    `json:"id"`
 	Spec    int    `json:"spec,omitempty"`
 	Off     int    `json:"off,omitempty"`
@@ -50,7 +51,14 @@ type op struct {
 func (o op) String() string {
 	switch o.K {
 	case "sched":
+		if o.Mid {
+			return fmt.Sprintf("sched(%d,%q,off=%s,back=%d,raw=%v,behav=%d,mid-advance=%d|%s)", idPool[o.ID], specPool[o.Spec].Cron, offsetPool[o.Off], backPool[o.Back], o.Raw, o.Behav, o.Periods, time.Duration(o.D))
+		}
 		return fmt.Sprintf("sched(%d,%q,off=%s,back=%d,raw=%v,behav=%d)", idPool[o.ID], specPool[o.Spec].Cron, offsetPool[o.Off], backPool[o.Back], o.Raw, o.Behav)
+	case "release":
+		if o.Mid {
+			return fmt.Sprintf("release(%d,mid-advance=%d|%s)", idPool[o.ID], o.Periods, time.Duration(o.D))
+		}
 	case "advance":
 		if o.Periods > 0 {
 			return fmt.Sprintf("advance(%d periods of %d | %s)", o.Periods, idPool[o.ID], time.Duration(o.D))
@@ -136,6 +144,8 @@ type stats struct {
 	stopTimeout  bool
 	whenChecks   int
 	staleAllowed int
+	midDispatch  bool // a Release / Schedule was in flight while the loop dispatched a run of its task
+	midZombie    bool // ... and a later advance passed the time at which the released task would have run next
 }
 
 type hist struct {
@@ -149,6 +159,12 @@ type hist struct {
 	stale  []time.Time // former head due times that When() may lag on (Release does not re-arm, by design)
 	st     stats
 	syncTO time.Duration
+
+	hooked  int                        // metric counters wrapped (mid-call schedule points)
+	skipLag *scheduler.ID              // settledLocked ignores this task (its Release / Schedule is in flight)
+	alsoDue *mtask                     // the task a Schedule call in flight is about to install (sizes the mid-call advance)
+	cut     bool                       // the history ends here without further assertions
+	zombie  map[scheduler.ID]time.Time // released while a dispatch was in flight: when it would run next
 }
 
 const maxNewDue = 150
@@ -166,11 +182,13 @@ func newHist(cfg config) (*hist, error) {
 			h.w.onLoop()
 		}
 	})
-	s, _, err := scheduler.NewScheduler(h.w, h.w, scheduler.WithTime(h.mock), scheduler.WithMaxConcurrentWorkers(cfg.Workers))
+	s, sm, err := scheduler.NewScheduler(h.w, h.w, scheduler.WithTime(h.mock), scheduler.WithMaxConcurrentWorkers(cfg.Workers))
 	if err != nil {
 		return nil, err
 	}
 	h.sch = s
+	h.hooked = hookMetrics(sm, h.w)
+	h.zombie = map[scheduler.ID]time.Time{}
 	h.in = peek(s)
 	for _, id := range idPool {
 		h.tasks[id] = &mtask{}
@@ -296,6 +314,9 @@ func (h *hist) settledLocked() (settled, full bool, lag string) {
 	}
 	settled, full = true, len(blockedW) == 0
 	for _, id := range idPool {
+		if h.skipLag != nil && *h.skipLag == id {
+			continue
+		}
 		t := h.tasks[id]
 		n := len(h.w.runs[id])
 		caught := n == len(t.exp) && h.w.exits[id] == n && len(h.w.ckpt[id]) == n
@@ -518,6 +539,155 @@ func (h *hist) checkSpin() *failure {
 	return &failure{key: keyNegReset, timing: true, detail: fmt.Sprintf("main loop woke up %d times (of %d) with a non-empty queue whose head was not yet due; a Schedule/Release can explain at most %d of them", sp, wk, sp-ex)}
 }
 
+// doAdvance moves the model and the mock clock forward (the body of an "advance" operation, also
+// used for the clock movement in the middle of a Release / Schedule call).
+func (h *hist) doAdvance(o op) *failure {
+	t := h.tasks[idPool[o.ID]]
+	if f := h.readyClock(); f != nil {
+		return f
+	}
+	d := time.Duration(o.D)
+	if o.Periods > 0 && t.active {
+		d = time.Duration(o.Periods) * t.period
+	}
+	for d > time.Millisecond {
+		total := 0
+		for _, x := range h.tasks {
+			total += x.countDue(h.now.Add(d), maxNewDue)
+		}
+		if h.alsoDue != nil {
+			total += h.alsoDue.countDue(h.now.Add(d), maxNewDue)
+		}
+		if total <= maxNewDue {
+			break
+		}
+		d /= 2
+		h.class("advance:clamped")
+	}
+	h.now = h.now.Add(d)
+	total, most := 0, 0
+	for _, x := range h.tasks {
+		a := x.extend(h.now)
+		total += a
+		if a > most {
+			most = a
+		}
+	}
+	switch {
+	case total == 0:
+		h.class("advance:nothing-due")
+	case most >= 2:
+		h.class("advance:several-runs-of-one-task")
+		h.st.multiDue = true
+	default:
+		h.class("advance:single-runs")
+	}
+	h.publish()
+	if f := h.moveClock(h.now); f != nil {
+		return f
+	}
+	for zid, zw := range h.zombie {
+		if !h.now.Before(zw) {
+			h.st.midZombie = true
+			h.class("advance:passes-next-due-time-of-task-released-during-dispatch")
+			delete(h.zombie, zid)
+		}
+	}
+	return nil
+}
+
+// mutexFree reports whether the scheduler's mutex can be taken from the calling goroutine (it
+// cannot when the mid-call point is reached while Release / Schedule itself holds the mutex).
+func (h *hist) mutexFree(patience time.Duration) bool {
+	deadline := time.Now().Add(patience)
+	for {
+		if h.in.mu.TryLock() {
+			h.in.mu.Unlock()
+			return true
+		}
+		if time.Now().After(deadline) {
+			return false
+		}
+		time.Sleep(50 * time.Microsecond)
+	}
+}
+
+// midAdvance runs on the harness goroutine INSIDE h.sch.Release(id) / h.sch.Schedule(id) (at the
+// call-counting metric): the clock advances and the main loop dispatches whatever is due while
+// that call is in flight. The call has not returned, so the model still holds the task as it was:
+// a correct scheduler behaves as if the advance had happened just before the call — or, were the
+// call already effective at this point, the task's own runs do not start; that case cannot be
+// told from a lost run by waiting, so the history is then cut without a verdict.
+func (h *hist) midAdvance(o op) *failure {
+	id := idPool[o.ID]
+	t := h.tasks[id]
+	if !h.mutexFree(200 * time.Millisecond) {
+		h.class("mid:scheduler-mutex-held-at-hook")
+		return nil
+	}
+	before := len(t.exp)
+	ao := o
+	ao.K = "advance"
+	if f := h.doAdvance(ao); f != nil {
+		return f
+	}
+	_, f := h.sync()
+	if f != nil && f.key == "missed-run" {
+		h.skipLag = &id
+		h.w.mu.Lock()
+		f2 := h.safetyLocked()
+		settled, _, _ := h.settledLocked()
+		h.w.mu.Unlock()
+		h.skipLag = nil
+		if f2 == nil && settled {
+			h.cut = true
+			h.class("mid:in-flight-call-already-effective-history-cut")
+			return nil
+		}
+	}
+	if f != nil {
+		return f
+	}
+	if f := h.checkSpin(); f != nil {
+		return f
+	}
+	h.class(o.K + ":clock-advance-mid-call")
+	if len(t.exp) > before && h.entered(id) == len(t.exp) {
+		h.class(o.K + ":mid-call-dispatch-of-its-own-task")
+		h.st.midDispatch = true
+		if o.K == "release" {
+			if w, ok := t.pendingWhen(); ok {
+				h.zombie[id] = w
+			}
+		}
+	}
+	return nil
+}
+
+// inFlight calls fn (h.sch.Release or h.sch.Schedule) with the mid-call action armed when the
+// operation asks for it. apply is the model's transition for the call: it runs right before the
+// call, or — with a mid-call advance — inside it, after the advance.
+func (h *hist) inFlight(o op, apply func(), fn func() error) (error, *failure) {
+	if !o.Mid {
+		apply()
+		return fn(), nil
+	}
+	var mf *failure
+	fired := false
+	h.w.armMid(func() {
+		fired = true
+		mf = h.midAdvance(o)
+		apply()
+	})
+	err := fn()
+	h.w.armMid(nil)
+	if !fired {
+		h.class("mid:hook-not-reached")
+		apply()
+	}
+	return err, mf
+}
+
 // step executes one operation.
 func (h *hist) step(o op) *failure {
 	id := idPool[o.ID]
@@ -533,44 +703,59 @@ func (h *hist) step(o op) *failure {
 		if o.Raw {
 			last = h.now.Truncate(time.Second).Add(-time.Duration(backPool[o.Back]) * sp.Period)
 		}
-		h.noteStale(id, t)
-		n := h.entered(id)
-		if n < len(t.exp) {
-			h.st.releaseDue = true
-			h.class("sched:replaces-task-with-unstarted-due-runs")
-			t.exp = t.exp[:n]
+		sd := sched{id: id, s: s, off: offsetPool[o.Off], last: last}
+		if o.Mid {
+			h.alsoDue = &mtask{active: true, s: s, off: sd.off, last: last}
 		}
-		if t.active {
-			h.class("sched:re-schedule")
-		} else {
-			h.class("sched:new")
-		}
-		t.active, t.s, t.off, t.last, t.period = true, s, offsetPool[o.Off], last, sp.Period
-		added := t.extend(h.now)
-		switch {
-		case added == 0:
-			h.class("sched:not-yet-due")
-		case added == 1:
-			h.class("sched:one-run-due")
-		default:
-			h.class("sched:catch-up-several-runs")
-			h.st.multiDue = true
-		}
-		h.w.mu.Lock()
-		h.w.behav[id] = o.Behav
-		h.w.mu.Unlock()
-		h.allowance()
-		h.publish()
-		periods := map[time.Duration]bool{}
-		for _, x := range h.tasks {
-			if x.active {
-				periods[x.period] = true
+		apply := func() {
+			h.noteStale(id, t)
+			delete(h.zombie, id)
+			n := h.entered(id)
+			if n < len(t.exp) {
+				h.st.releaseDue = true
+				h.class("sched:replaces-task-with-unstarted-due-runs")
+				t.exp = t.exp[:n]
+			}
+			if t.active {
+				h.class("sched:re-schedule")
+			} else {
+				h.class("sched:new")
+			}
+			t.active, t.s, t.off, t.last, t.period = true, s, offsetPool[o.Off], last, sp.Period
+			added := t.extend(h.now)
+			switch {
+			case added == 0:
+				h.class("sched:not-yet-due")
+			case added == 1:
+				h.class("sched:one-run-due")
+			default:
+				h.class("sched:catch-up-several-runs")
+				h.st.multiDue = true
+			}
+			h.w.mu.Lock()
+			h.w.behav[id] = o.Behav
+			h.w.mu.Unlock()
+			h.allowance()
+			h.publish()
+			periods := map[time.Duration]bool{}
+			for _, x := range h.tasks {
+				if x.active {
+					periods[x.period] = true
+				}
+			}
+			if len(periods) >= 2 {
+				h.st.twoPeriods = true
 			}
 		}
-		if len(periods) >= 2 {
-			h.st.twoPeriods = true
+		err, mf := h.inFlight(o, apply, func() error { return h.sch.Schedule(sd) })
+		h.alsoDue = nil
+		if mf != nil {
+			return mf
 		}
-		if err := h.sch.Schedule(sched{id: id, s: s, off: t.off, last: last}); err != nil {
+		if h.cut {
+			return nil
+		}
+		if err != nil {
 			return &failure{key: "schedule-error", detail: fmt.Sprintf("Schedule(%s) failed: %v", o, err)}
 		}
 		// a mock timer that is reset to "now" only fires on the next clock movement
@@ -579,15 +764,24 @@ func (h *hist) step(o op) *failure {
 		}
 
 	case "release":
-		if t.active {
-			h.noteStale(id, t)
-			h.class("release:scheduled-task")
-		} else {
-			h.class("release:unknown-task")
+		apply := func() {
+			if t.active {
+				h.noteStale(id, t)
+				h.class("release:scheduled-task")
+			} else {
+				h.class("release:unknown-task")
+			}
+			t.active = false
+			h.allowance()
 		}
-		t.active = false
-		h.allowance()
-		if err := h.sch.Release(id); err != nil {
+		err, mf := h.inFlight(o, apply, func() error { return h.sch.Release(id) })
+		if mf != nil {
+			return mf
+		}
+		if h.cut {
+			return nil
+		}
+		if err != nil {
 			return &failure{key: "release-error", detail: fmt.Sprintf("Release(%d) failed: %v", id, err)}
 		}
 		// Release has returned: whatever has not started by now must never start
@@ -599,44 +793,7 @@ func (h *hist) step(o op) *failure {
 		h.publish()
 
 	case "advance":
-		if f := h.readyClock(); f != nil {
-			return f
-		}
-		d := time.Duration(o.D)
-		if o.Periods > 0 && t.active {
-			d = time.Duration(o.Periods) * t.period
-		}
-		for d > time.Millisecond {
-			total := 0
-			for _, x := range h.tasks {
-				total += x.countDue(h.now.Add(d), maxNewDue)
-			}
-			if total <= maxNewDue {
-				break
-			}
-			d /= 2
-			h.class("advance:clamped")
-		}
-		h.now = h.now.Add(d)
-		total, most := 0, 0
-		for _, x := range h.tasks {
-			a := x.extend(h.now)
-			total += a
-			if a > most {
-				most = a
-			}
-		}
-		switch {
-		case total == 0:
-			h.class("advance:nothing-due")
-		case most >= 2:
-			h.class("advance:several-runs-of-one-task")
-			h.st.multiDue = true
-		default:
-			h.class("advance:single-runs")
-		}
-		h.publish()
-		if f := h.moveClock(h.now); f != nil {
+		if f := h.doAdvance(o); f != nil {
 			return f
 		}
 
@@ -679,6 +836,9 @@ func runHistory(cfg config, ops []op) (*stats, *failure, int) {
 		}
 		if f != nil {
 			return &h.st, f, i
+		}
+		if h.cut {
+			return &h.st, nil, i
 		}
 	}
 	if f := h.step(op{K: "open"}); f != nil {
